@@ -117,7 +117,7 @@ func checkMain(args []string) int {
 		all = true
 	}
 
-	replayDir := filepath.Join(verifDir, "replay", prop)
+	replayDir := filepath.Join(outDir, "replay", prop)
 	os.RemoveAll(replayDir)
 	os.MkdirAll(replayDir, 0o755)
 
@@ -446,7 +446,7 @@ func writeEvidence(prop, tier string, seed int, recs []oblRecord, abstracted, kn
 	if w != nil {
 		used := []string{}
 		for k, c := range w.specs.Contracts {
-			if c.Used && !strings.Contains(c.File, "/repo/") {
+			if c.Used && !strings.Contains(c.File, repoDir+"/") {
 				used = append(used, k)
 			}
 		}
@@ -501,8 +501,8 @@ func writeEvidence(prop, tier string, seed int, recs []oblRecord, abstracted, kn
 		ev["coverage"].(map[string]interface{})["explanation"] = "no obligation could be generated in this run (load or contract-binding failure); see violations"
 	}
 	data, _ := json.MarshalIndent(ev, "", " ")
-	os.MkdirAll(filepath.Join(verifDir, "evidence"), 0o755)
-	os.WriteFile(filepath.Join(verifDir, "evidence", prop+".json"), append(data, '\n'), 0o644)
+	os.MkdirAll(filepath.Join(outDir, "evidence"), 0o755)
+	os.WriteFile(filepath.Join(outDir, "evidence", prop+".json"), append(data, '\n'), 0o644)
 }
 
 func pcFuncs(pc *PropConfig) []string {
